@@ -22,11 +22,12 @@ META = {
 }
 META["explanation"] += '  sort2-second-graph-in-process: another build of the graph sorted first in the same execution.  tokens/cli/sort.py: the path tokenizer decided as a language by z3.'
 META["explanation"] += '  The replay sorts the records twice: pure ASCII and with a comment field of multi-byte characters.'
+META["explanation"] += '  Paths with a reversed middle node between two equally oriented ones are in the sort1 list.'
 
 
 def harnesses(tier):
     hs = []
-    one = [">s1", "<s1", ">x1", ">s1>x1", ">s1<s2", "<s2<x1<s1", ">s1<x1<s2", ">x1>s2"]
+    one = [">s1", "<s1", ">x1", ">s1>x1", ">s1<s2", "<s2<x1<s1", ">s1<x1<s2", ">x1>s2", ">s1<x1>s2", "<s1>x1<s2"]
     for p in one:
         hs.append({"id": "sort1/" + p, "params": {"kind": "sort", "paths": [p], "scaffold_ref": False}, "timeout": 200,
                    "twin": p == ">s1>x1"})
